@@ -5,8 +5,9 @@ A case is a structured triple (parameter with its state, operator, operand).  It
                        bash (oracle; thousands of cases per bash process), and a sample through the brush binary;
  (b) to a wire line -> the Lean driver, which answers with the Impl model's outcome (mirror of brush's code),
                        the Spec outcome (bash reference semantics) and the domain guards the case falls outside of.
-Operators the Lean model does not cover (replacement, case modification, indirection, keys, @-transforms)
-are run property-direct: brush against bash.
+Pattern substitution (`/ // /# /%`), case modification (`^ ^^ , ,,`) and `@U @L @u` go through the same four-way
+comparison (Model/ParamSubst.lean over C08's regex model, Spec/ParamSubst.lean over C08's bash matching relation).
+Operators the Lean model does not cover (keys, prefix names, @Q @E @P @a @A @K) are run property-direct: brush against bash.
 """
 import itertools
 import json
@@ -132,7 +133,48 @@ def render_op(name, op):
         return '"${%s%s%s}"' % (name, t, "" if pat is None else render_pat(pat))
     if k == "rmx":
         return '"${%s%s%s}"' % (name, op[1], op[2])
+    if k == "rp":
+        _, ext, kind, style, ptxt, atoms = op
+        if style == "v":
+            return '"${%s%s%s/$r}"' % (name, kind, ptxt)
+        if style == "n":        # `${v/p}`: no replacement at all
+            return '"${%s%s%s}"' % (name, kind, ptxt)
+        return '"${%s%s%s/%s}"' % (name, kind, ptxt, render_atoms_inline(atoms))
+    if k == "cm":
+        return '"${%s%s%s}"' % (name, op[1], "" if op[2] is None else op[2])
+    if k == "tr":
+        return '"${%s@%s}"' % (name, op[1])
     raise ValueError(op)
+
+
+# replacement atoms: ("L", c) a literal character, ("A",) an unquoted `&` (the matched text)
+def render_atoms_inline(atoms):
+    out = []
+    for a in atoms:
+        if a[0] == "A":
+            out.append("&")
+        elif a[1] in "&\\$":
+            out.append("\\" + a[1])
+        else:
+            out.append(a[1])
+    return "".join(out)
+
+
+def bash_template(atoms):
+    """the replacement as bash's pat_subst wants it after expansion: `\\&` a literal `&`, `\\\\` a backslash"""
+    out = []
+    for a in atoms:
+        if a[0] == "A":
+            out.append("&")
+        elif a[1] in "&\\":
+            out.append("\\" + a[1])
+        else:
+            out.append(a[1])
+    return "".join(out)
+
+
+def wire_atoms(atoms):
+    return esc("".join("A" if a[0] == "A" else "L" + a[1] for a in atoms))
 
 
 def wire_op(op):
@@ -147,6 +189,13 @@ def wire_op(op):
         return "rm %s %s" % (op[1], "!" if op[2] is None else wire_pat(op[2]))
     if k == "rmx":
         return "rmx %s %s" % (op[1], esc(op[2]))
+    if k == "rp":
+        _, ext, kind, style, ptxt, atoms = op
+        return "rp %d %s %s %s %s" % (1 if ext else 0, kind, "v" if style == "v" else "i", esc(ptxt), wire_atoms(atoms))
+    if k == "cm":
+        return "cm %s %s" % (op[1], "!" if op[2] is None else esc(op[2]))
+    if k == "tr":
+        return "tr " + op[1]
     raise ValueError(op)
 
 
@@ -156,8 +205,11 @@ class Case:
     def __init__(self, tag, param, op, nounset=False):
         self.tag, self.param, self.op, self.nounset = tag, param, op, nounset
         setup, name, probe = render_param(param)
-        self.parts = ("shopt -s extglob\n" if op[0] == "rmx" else "", setup, "\nset -u" if nounset else "")
-        if op[0] == "rmx":
+        ext = op[0] == "rmx" or (op[0] == "rp" and op[1])
+        if op[0] == "rp" and op[3] == "v":
+            setup += "\nr=" + sq(bash_template(op[5]))
+        self.parts = ("shopt -s extglob\n" if ext else "", setup, "\nset -u" if nounset else "")
+        if ext:
             setup = "shopt -s extglob\n" + setup
         if nounset:
             setup += "\nset -u"
@@ -495,6 +547,117 @@ def extglob_direct(ctx):
     return out
 
 
+# -- pattern substitution, case modification, value transforms: through the model --------------------
+
+RP_KINDS = ["/", "//", "/#", "/%"]
+RP_PATS = ["a", "b", "ab", "ba", "?", "*", "a*", "*b", "a?", "[ab]", "[!a]", "\\*", "\\/", "\\\\", "é", "", "a*b", "??", "*a*", "\\&"]
+RP_XPATS = ["@(a|ab)", "@(ab|a)", "+(a|ab)", "?(a)", "*(a|ab)", "!(a)", "+(a)b", "@(a|b)", "a@(b|bb)", "+(ab|a)"]
+RP_VALS = ["*a", "a*b", "a/b", "a&b", "a\\b", "éa", "aé", "a b", "abab", "aabab", "a\nb", "abba"]
+X, AMP = ("L", "X"), ("A",)
+RP_REPS_CORE = [[], [X], [X, AMP], [("L", "$"), ("L", "0")]]
+RP_REPS = RP_REPS_CORE + [[AMP], [AMP, AMP], [("L", "&")], [("L", "\\")], [("L", "\\"), AMP], [("L", "/")], [("L", "$"), ("L", "$")],
+                          [("L", "$"), ("L", "x")], [("L", "é")], [("L", "$")], [("L", "a"), ("L", "$"), ("L", "0"), ("L", "0"), ("L", "b")],
+                          [("L", " "), AMP, ("L", " ")]]
+
+
+def rp_op(ext, kind, style, ptxt, atoms):
+    if kind == "/" and ptxt == "":
+        return None              # `${v//r}` is `//` with the pattern r
+    if ptxt.startswith("*") and ptxt.endswith("\\*"):
+        return None              # bash's quick pre-check reads the final `\*` of `*…\*` as an unquoted star and matches the whole value
+    if style == "n" and atoms:
+        style = "i"
+    return ("rp", ext, kind, style, ptxt, atoms)
+
+
+CM_FORMS = ["^", "^^", ",", ",,"]
+CM_PATS = [None, "", "a", "A", "[ab]", "[!a]", "?", "*", "ab", "a*", "??", "é", "[aB]", "\\*"]
+CM_VALS = ["éa", "Éa", "ßa", "aß", "a b", "ab ab", "aB cD", "ÿ", "µ", "a*", " a", "a\nb", "AB AB", "\ta b", "a  b"]
+
+
+def subst_exhaustive(ctx):
+    out = []
+
+    def add(param, op, nu=False):
+        if op is not None:
+            out.append(Case("sexh", param, op, nu))
+
+    vals = list(strings(["a", "b"], 3)) + RP_VALS
+    for v in vals:
+        for kind in RP_KINDS:
+            for pt in RP_PATS:
+                for r in RP_REPS_CORE:
+                    add(("named", v, ""), rp_op(False, kind, "i", pt, r))
+            for pt in RP_XPATS:
+                for r in RP_REPS_CORE[:3]:
+                    add(("named", v, ""), rp_op(True, kind, "i", pt, r))
+    for v in ["", "ab", "aab", "a&b", "a\\b", "éa", "a/b", "abab"]:
+        for kind in RP_KINDS:
+            for pt in ["a", "?", "*", "a*", "[ab]", "", "\\\\", "é"]:
+                for r in RP_REPS:
+                    for style in ("i", "v", "n"):
+                        add(("named", v, ""), rp_op(False, kind, style, pt, r))
+    # every parameter state x nounset
+    states = []
+    for v in [None, "", "ab"]:
+        states += scalar_params(v)
+    for vals_ in [[], [""], ["ab", "", "ba"], ["a b", "éa"]]:
+        for star in (False, True):
+            states += [("all", vals_, star, False), ("posall", vals_, star)]
+    for prm in states:
+        for nu in (False, True):
+            for kind in RP_KINDS:
+                for pt, r in [("a", [X]), ("*", [X]), ("?", [AMP, AMP]), ("b", [])]:
+                    add(prm, rp_op(False, kind, "i", pt, r), nu)
+            for form in CM_FORMS:
+                for pt in (None, "a", "[ab]"):
+                    add(prm, ("cm", form, pt), nu)
+            for t in "ULu":
+                add(prm, ("tr", t), nu)
+    cvals = list(strings(["a", "b", "A"], 3)) + CM_VALS
+    for v in cvals:
+        for form in CM_FORMS:
+            for pt in CM_PATS:
+                add(("named", v, ""), ("cm", form, pt))
+        for t in "ULu":
+            add(("named", v, ""), ("tr", t))
+    return out
+
+
+def subst_random(ctx, n):
+    rng = ctx.rng
+    out = []
+    valpha = ["a", "a", "b", "b", "A", "*", "/", "&", "\\", "é", " ", "\n", "?"]
+    pieces = ["a", "b", "ab", "?", "*", "[ab]", "[!a]", "[!b]", "\\*", "\\/", "\\\\", "é", " ", "\\?", "\\&"]
+    xpieces = ["@(a|ab)", "@(ab|a)", "+(a|ab)", "+(ab|b)", "?(a)", "?(ab)", "*(a|ab)", "*(b)", "!(a)", "!(ab)", "@(a|b|ab)", "+(a)", "@(b|ba)"]
+    ratoms = [X, X, AMP, ("L", "a"), ("L", "&"), ("L", "\\"), ("L", "/"), ("L", "$"), ("L", "0"), ("L", "x"), ("L", "é"), ("L", " ")]
+    for _ in range(n):
+        r = rng.random()
+        prm = ("named", "".join(rng.choice(valpha) for _ in range(rng.randint(0, 8))), "") if rng.random() < 0.85 else rand_param(rng)
+        nu = rng.random() < 0.1
+        if r < 0.7:
+            ext = rng.random() < 0.35
+            pt = "".join(rng.choice(pieces + (xpieces * 2 if ext else [])) for _ in range(rng.randint(1, 3)))
+            atoms = [rng.choice(ratoms) for _ in range(rng.randint(0, 3))]
+            if any(a == ("L", "$") for a in atoms):
+                atoms = [a for a in atoms if a != ("L", "é")]        # the template reader's identifier rule is modelled for ASCII
+            style = rng.choice(["i", "i", "v", "n"])
+            op = rp_op(ext, rng.choice(RP_KINDS), style, pt, atoms)
+            if op is None:
+                continue
+        elif r < 0.9:
+            if prm[0] == "named":
+                prm = ("named", "".join(rng.choice(["a", "b", "A", "B", " ", "é", "É", "ß", "*", "\n"]) for _ in range(rng.randint(0, 7))), "")
+            pt = rng.choice(CM_PATS + ["[AB]", "b", "B", "a?", "*b", "[!A]"])
+            op = ("cm", rng.choice(CM_FORMS), pt)
+        else:
+            if prm[0] == "named":
+                prm = ("named", "".join(rng.choice(["a", "b", "A", " ", "é", "ß", "\t", "\n"]) for _ in range(rng.randint(0, 7))), "")
+            op = ("tr", rng.choice("ULu"))
+        out.append(Case("srand", prm, op, nu))
+    return out
+
+
 # -- state x operator x nounset x indirection ------------------------------------------------------
 
 def ind_targets():
@@ -703,6 +866,9 @@ def direct_cases(ctx, n):
         for op in (ops if (ctx.quick is False or len(v) <= 1) else ["@E"] + [ops[1 + i % (len(ops) - 1)]]):
             if op == "@P" and ("\\" in v or "'" in v or '"' in v):
                 continue        # prompt decoding of arbitrary backslash sequences is C01/C13 ground (and partly time-dependent)
+            if op == "@E" and NUL_OR_OVERFLOW_ESCAPE.search(v):
+                continue        # domain guard: NUL is outside every generator's domain (bash truncates the value at it), and an
+                                # octal escape above \\377 wraps to a byte in bash (`\\400` is NUL)
             out.append(Direct("transform-values", "v=" + sq(v), '"${v%s}"' % op))
     out.append(Direct("keys", "declare -A A=([k]=v)", '"${!A[@]}"'))
     out.append(Direct("prefix-names", "zzq1=1; zzq2=2", '"${!zzq@}"'))
@@ -877,6 +1043,23 @@ def sweep_clause(c, name, b, o):
     if o.endswith("\x05FAIL") and "\x04" in b and not b.startswith("<") and "\x04" not in o:
         # the expansion fails inside a function: bash abandons the whole enclosing command, brush resumes after the call
         return "expansion_error_in_function_resumes_caller"
+    op = getattr(c, "op", None)
+    if op and op[0] == "rp" and "nocasematch" in name:
+        # case-insensitive matching makes the pattern match where it did not at top level: the recorded defects of the
+        # replacement path show up through the option
+        atoms, style, ptxt = op[5], op[3], op[4]
+        if any(a[0] == "A" for a in atoms) or (style == "v" and any(a[0] == "L" and a[1] in "&\\" for a in atoms)):
+            return "replace_ampersand_not_matched_text"
+        if REPEATED_PLUS_GROUP.search(ptxt):
+            return "regex_repeated_plus_group_false_match"
+        for mt in re.finditer(r"([@+*?!])\(([^()]*)\)", ptxt):
+            kind, alts = mt.group(1), mt.group(2).split("|")
+            if kind == "!":
+                return "extglob_negation_not_complement"
+            if kind in "*?":
+                return "replace_empty_match_differs"
+            if any(alts[j].lower().startswith(alts[i].lower()) and alts[i] != alts[j] for i in range(len(alts)) for j in range(i + 1, len(alts))):
+                return "replace_alternation_leftmost_first"
     starry = "*" in w or "[*]'" in c.setup or "r='*'" in c.setup
     if name in ("IFS=", "IFS= in function", "unquoted IFS=") and starry:
         return "star_join_ignores_empty_ifs"              # C05-2 seen through the operators
@@ -985,7 +1168,16 @@ def load_corpus():
     return out
 
 
-CLAUSE_PRIORITY = ["indirect_assign_element_target_accepted", "indirect_positional_slice_without_argv0",
+# escapes that decode to NUL (`\\0`, `\\00`, `\\000`, `\\x0`, `\\x00`, `\\u0…`) or to an octal value above \\377
+NUL_OR_OVERFLOW_ESCAPE = re.compile(r"\\[4-7][0-7]{2}|\\000|\\0{1,2}(?![0-7])|\\x00|\\x0(?![0-9a-fA-F])|\\u0000|\\u0{1,3}(?![0-9a-fA-F])")
+
+# the same `+(x|y)` group twice around an optional group: fancy_regex / regex answer wrongly (`[[ b == +(ab|b)?(a)+(ab|b) ]]`)
+REPEATED_PLUS_GROUP = re.compile(r"\+\(([^()]*\|[^()]*)\)[?*]\([^()]*\)\+\(\1\)")
+
+CLAUSE_PRIORITY = ["replace_ampersand_not_matched_text", "replace_dollar_read_by_regex_crate", "casemod_pattern_matches_substrings",
+                   "casemod_multichar_case_mapping", "at_u_capitalizes_every_word",
+                   "replace_alternation_leftmost_first", "replace_empty_match_differs",
+                   "indirect_assign_element_target_accepted", "indirect_positional_slice_without_argv0",
                    "extglob_negation_not_complement", "substring_negative_length", "length_counts_bytes", "shortest_match_skips_empty",
                    "pattern_anchors_at_newlines", "all_null_elements_count_as_null",
                    "at_alternative_on_empty_list_keeps_field"]
@@ -1057,6 +1249,12 @@ def evaluate(ctx, cases, bouts, oouts, mouts, limit=25):
             if clauses and same(b, o) and same(b, spec):
                 ctx.bucket("finding_not_reproduced")     # a recorded defect no longer shows here
                 continue
+            op = getattr(c, "op", None)
+            if op and op[0] == "rp" and REPEATED_PLUS_GROUP.search(op[4]) and not same(b, o):
+                # the regex engine (not brush's translation, which the model follows) answers wrongly here
+                ctx.known_or_violation("regex_repeated_plus_group_false_match",
+                                       "brush's result differs from bash's and from the model of the regex it builds", case)
+                continue
             if nviol < limit:
                 nviol += 1
                 if same(b, o):
@@ -1067,6 +1265,7 @@ def evaluate(ctx, cases, bouts, oouts, mouts, limit=25):
 
 
 MY_LEAN = ["Model/ParamOps.lean", "Spec/ParamOps.lean", "Proofs/ParamOps.lean", "Props/C06.lean", "Drv/C06.lean",
+           "Model/ParamSubst.lean", "Spec/ParamSubst.lean", "Proofs/ParamSubst.lean",
            "Model/Pattern.lean", "Spec/Glob.lean"]     # the last two are C08's, imported by the driver
 
 
@@ -1102,6 +1301,8 @@ def run(ctx):
     cases += direct_cases(ctx, 0)
     cases += extglob_direct(ctx)
     cases += unmodelled_state_table(ctx)
+    cases += subst_exhaustive(ctx)
+    cases += subst_random(ctx, ctx.size(4000, 60000))     # (drawn last: the earlier families keep their seeds' cases)
     # de-duplicate (the exhaustive families overlap)
     seen, uniq = set(), []
     for c in cases:
@@ -1151,7 +1352,9 @@ def run(ctx):
     ctx.cov["rule"] = ("(parameter, operator, operand) triples: parameters = scalar / array element / assoc element / "
                        "positional / a[@] a[*] $@ $* in states set, null, unset, declared-unset, with and without nounset; "
                        "values over {a,b,space,newline,*,é}; exhaustive over short values x offsets/lengths -5..5 and i64 extremes x "
-                       "all patterns of <=2 elements from an 11-element glob grammar x the 4x2 test operators, plus seeded random "
+                       "all patterns of <=2 elements from an 11-element glob grammar x the 4x2 test operators; pattern substitution: short "
+                       "values x 30 patterns (glob, extglob alternations, quoted * / \\ &, empty) x replacements with &, \\&, \\\\, $0, /, "
+                       "empty, inline and through $r x / // /# /%; case modification x 14 patterns x ASCII and Latin-1 values; plus seeded random "
                        "longer ones; every case goes to brush in-process, bash, and (modelled operators) the Lean model+spec; "
                        "non-trivial = every modelled case (distinct by setup+word)")
     ctx.assumptions += ["dense indexed arrays and single-key associative arrays only (bash orders hash keys differently)",
